@@ -429,9 +429,11 @@ class HdlcFrameReader(MeterReaderBase[HdlcFrame]):
     def _start_frame(self) -> None:
         self._frame = HdlcFrame()
         self._raw_frame_data.clear()
+        self._unescape_next = False
 
     def _goto_hunt_mode(self) -> None:
         self._frame = None
+        self._unescape_next = False
         self._buffer.trim_buffer_to_flag_or_end()
 
 
